@@ -40,6 +40,9 @@ package vnet
 //@ func (c Chunk) SourceAddr() (r net.Addr)
 //@   pure
 //@   ensures r != nil
+//@ func (c Chunk) Clone() (r Chunk)
+//@   pure
+//@   ensures r != nil && ref(r) > 0 && fresh(ptr(r, *chunkUDP))
 //@ func (c Chunk) DestinationAddr() (r net.Addr)
 //@   pure
 //@   ensures r != nil
